@@ -62,6 +62,12 @@ def changeTypeGuard (S : Schema) (doc : Node) (pos : Nat) (ty : TypeId) (ms : Ma
     | none => false
   | none => true
 
+/-- the marks part of `insertGuard`: the parent of `p` allows the marks of `n` -/
+def marksAllowedAt (S : Schema) (doc : Node) (p : Nat) (n : Node) : Bool :=
+  match doc.resolve p with
+  | some rp => (S.nodeType (S.tyOf rp.parent)).allowsMarks n.marks
+  | none => true
+
 /-- what the Fitter's `place_nodes` makes of a node put in at `p`: `node.mark(parent_type.allowed_marks(node.marks))` —
     the marks the parent of `p` does not allow are dropped -/
 def strippedAt (S : Schema) (doc : Node) (p : Nat) (n : Node) : Node :=
